@@ -369,6 +369,26 @@ Definition extra_digests (m : order_mode) (H : bytes -> bytes) (contents : list 
   | OtherOrder => []          (* some permutation that depends on scheduling: nothing is claimed *)
   end.
 
+(* --- file-content digests (compiler binary, extra hashed files, the input of the preprocessor-level key): the bytes
+   arrive from a reader in PIECES (one per successful read); the loop of Digest::reader_sync_with feeds each piece
+   and stops at the first empty one (= end of file) *)
+Inductive loop_mode := StopAtEof | OtherLoop.
+
+Fixpoint loop_fed (ps : list bytes) : bytes :=
+  match ps with
+  | [] => []
+  | [] :: _ => []
+  | p :: r => p ++ loop_fed r
+  end.
+
+Definition reader_digest (m : loop_mode) (H : bytes -> bytes) (ps : list bytes) : bytes :=
+  match m with
+  | StopAtEof => H (loop_fed ps)
+  | OtherLoop => []
+  end.
+
+Definition nonempty (p : bytes) : bool := match p with [] => false | _ => true end.
+
 (* --- the input path of the preprocessor-level key: AsGiven = cwd joined with the path of the command line (the path
    itself when absolute), NOT resolved through the file system *)
 Inductive path_mode := AsGiven | OtherPath.
